@@ -144,108 +144,116 @@ def interp (f : FieldSpec) (w bits : Nat) : Val :=
   | .str => .text (if bits = 0 then [] else [bits])
   | _ => scale bits
 
+/-- width of a field: the table's, except DF396 which is NSat * NSig bits wide -/
+def fieldWidth (T : Tables) (f : FieldSpec) (fid : Nat) (s : DState) : Except DecErr Nat :=
+  if some fid = T.special.df396 then
+    match getNat s (T.fidNSat, []), getNat s (T.fidNSig, []) with
+    | .ok a, .ok b => .ok (a * b)
+    | .error e, _ => .error e
+    | _, .error e => .error e
+  else .ok f.width
+
+/-- the value of a field and the raw bits it was made from (derived labels read no bits).
+    This is the only place the payload is read. -/
+def fieldValue (p : Payload) (f : FieldSpec) (w : Nat) (idx : List Nat) (s : DState) : Except DecErr (Val × Nat) :=
+  match f.ty with
+  | .prn =>
+    match s.satmap, idx with
+    | some m, i :: _ => if i = 0 then .error .badIndex else
+        match m[i - 1]? with | some l => .ok (.text l, 0) | none => .error .badIndex
+    | none, _ => .error .noMap
+    | _, [] => .error .badIndex
+  | .cprn =>
+    match s.cellmap, idx with
+    | some m, i :: _ => if i = 0 then .error .badIndex else
+        match m[i - 1]? with | some l => .ok (.text l.1, 0) | none => .error .badIndex
+    | none, _ => .error .noMap
+    | _, [] => .error .badIndex
+  | .csig =>
+    match s.cellmap, idx with
+    | some m, i :: _ => if i = 0 then .error .badIndex else
+        match m[i - 1]? with | some l => .ok (.text l.2, 0) | none => .error .badIndex
+    | none, _ => .error .noMap
+    | _, [] => .error .badIndex
+  | _ =>
+    if (f.ty = .int ∨ f.ty = .snt) ∧ w = 0 then .error .badType   -- 1 << -1
+    else match extract p s.off w with
+      | none => .error .short
+      | some bits => .ok (interp f w bits, bits)
+
+/-- `setattr`: STR fields are concatenated into the un-indexed name, everything else is stored
+    under the indexed name -/
+def fieldStore (f : FieldSpec) (fid : Nat) (idx : List Nat) (attrs : Attrs) (v : Val) : Except DecErr Attrs :=
+  if f.ty = .str then
+    match attrs.get? (fid, []), v with
+    | none, _ => .ok (attrs.set (fid, []) v)
+    | some (.text old), .text new => .ok (attrs.set (fid, []) (.text (old ++ new)))
+    | _, _ => .error .badType
+  else .ok (attrs.set (fid, idx) v)
+
+/-- MSM bookkeeping after DF394 / DF395 / DF396 (counts, satellite and cell maps) and the
+    4076_201 coefficient counts after IDF038 -/
+def fieldSpecial (T : Tables) (id : Ident) (label : Nat) (f : FieldSpec) (fid : Nat) (idx : List Nat)
+    (w bits : Nat) (s1 : DState) : Except DecErr DState :=
+  let isDerivedTy := f.ty = .prn ∨ f.ty = .cprn ∨ f.ty = .csig
+  let s2E : Except DecErr DState :=
+    if some fid = T.special.df394 then
+      if isDerivedTy then .error .badType else
+      .ok { s1 with attrs := s1.attrs.set (T.fidNSat, []) (.int (popcount bits w)) }
+    else if some fid = T.special.df395 then
+      if isDerivedTy then .error .badType else
+      .ok { s1 with attrs := s1.attrs.set (T.fidNSig, []) (.int (popcount bits w)) }
+    else if some fid = T.special.df396 then
+      if isDerivedTy then .error .badType else
+      let s1' := { s1 with attrs := s1.attrs.set (T.fidNCell, []) (.int (popcount bits w)) }
+      match T.special.df394, T.special.df395 with
+      | some f394, some f395 =>
+        match s1'.attrs.get? (f394, []), s1'.attrs.get? (f395, []), s1'.attrs.get? (fid, []) with
+        | some a, some b, some d =>
+          match a.asInt?, b.asInt?, d.asInt? with
+          | some a, some b, some d =>
+            if a < 0 ∨ b < 0 ∨ d < 0 then .error .badType else
+            match satCellMaps T id label a.toNat b.toNat d.toNat with
+            | .ok (sm, cm) => .ok { s1' with satmap := some sm, cellmap := some cm }
+            | .error e => .error e
+          | _, _, _ => .error .badType
+        | _, _, _ => .error .noAttr
+      | _, _ => .error .noAttr
+    else .ok s1
+  match s2E with
+  | .error e => .error e
+  | .ok s2 =>
+  if some fid = T.special.idf038 then
+    match idx, T.special.idf037 with
+    | i :: _, some f037 =>
+      match getInt s2 (f037, [i]), getInt s2 (fid, [i]) with
+      | .ok n0, .ok m0 =>
+        let N := n0 + 1
+        let M := m0 + 1
+        let nc := (N + 1) * (N + 2) / 2 - (N - M) * (N - M + 1) / 2
+        let ns := nc - (N + 1)
+        .ok { s2 with attrs := (s2.attrs.set (T.fidNHarmC, []) (.int nc)).set (T.fidNHarmS, []) (.int ns) }
+      | .error e, _ => .error e
+      | _, .error e => .error e
+    | [], _ => .error .badIndex
+    | _, none => .error .noAttr
+  else .ok s2
+
 /-- `_set_attribute_single` -/
 def decField (c : Ctx) (fid : Nat) (idx : List Nat) (s : DState) : Except DecErr DState :=
   match c.T.field? fid with
   | none => .error .noField
   | some f =>
-    let T := c.T
-    -- width (DF396 is NSat * NSig wide)
-    let wE : Except DecErr Nat :=
-      if some fid = T.special.df396 then do
-        let a ← getNat s (T.fidNSat, [])
-        let b ← getNat s (T.fidNSig, [])
-        pure (a * b)
-      else pure f.width
-    match wE with
+    match fieldWidth c.T f fid s with
     | .error e => .error e
     | .ok w =>
-    -- value
-    let vE : Except DecErr (Val × Nat) :=
-      match f.ty with
-      | .prn =>
-        match s.satmap, idx with
-        | some m, i :: _ => if i = 0 then .error .badIndex else
-            match m[i - 1]? with | some l => .ok (.text l, 0) | none => .error .badIndex
-        | none, _ => .error .noMap
-        | _, [] => .error .badIndex
-      | .cprn =>
-        match s.cellmap, idx with
-        | some m, i :: _ => if i = 0 then .error .badIndex else
-            match m[i - 1]? with | some l => .ok (.text l.1, 0) | none => .error .badIndex
-        | none, _ => .error .noMap
-        | _, [] => .error .badIndex
-      | .csig =>
-        match s.cellmap, idx with
-        | some m, i :: _ => if i = 0 then .error .badIndex else
-            match m[i - 1]? with | some l => .ok (.text l.2, 0) | none => .error .badIndex
-        | none, _ => .error .noMap
-        | _, [] => .error .badIndex
-      | _ =>
-        if (f.ty = .int ∨ f.ty = .snt) ∧ w = 0 then .error .badType   -- 1 << -1
-        else match extract c.p s.off w with
-          | none => .error .short
-          | some bits => .ok (interp f w bits, bits)
-    match vE with
-    | .error e => .error e
-    | .ok (v, bits) =>
-    -- store
-    let attrsE : Except DecErr Attrs :=
-      if f.ty = .str then
-        match s.attrs.get? (fid, []), v with
-        | none, _ => .ok (s.attrs.set (fid, []) v)
-        | some (.text old), .text new => .ok (s.attrs.set (fid, []) (.text (old ++ new)))
-        | _, _ => .error .badType
-      else .ok (s.attrs.set (fid, idx) v)
-    match attrsE with
-    | .error e => .error e
-    | .ok attrs =>
-    let s1 : DState := { s with off := s.off + w, attrs := attrs }
-    let isDerivedTy := f.ty = .prn ∨ f.ty = .cprn ∨ f.ty = .csig
-    -- MSM bookkeeping
-    let s2E : Except DecErr DState :=
-      if some fid = T.special.df394 then
-        if isDerivedTy then .error .badType else
-        .ok { s1 with attrs := s1.attrs.set (T.fidNSat, []) (.int (popcount bits w)) }
-      else if some fid = T.special.df395 then
-        if isDerivedTy then .error .badType else
-        .ok { s1 with attrs := s1.attrs.set (T.fidNSig, []) (.int (popcount bits w)) }
-      else if some fid = T.special.df396 then
-        if isDerivedTy then .error .badType else
-        let s1' := { s1 with attrs := s1.attrs.set (T.fidNCell, []) (.int (popcount bits w)) }
-        match T.special.df394, T.special.df395 with
-        | some f394, some f395 =>
-          match s1'.attrs.get? (f394, []), s1'.attrs.get? (f395, []), s1'.attrs.get? (fid, []) with
-          | some a, some b, some d =>
-            match a.asInt?, b.asInt?, d.asInt? with
-            | some a, some b, some d =>
-              if a < 0 ∨ b < 0 ∨ d < 0 then .error .badType else
-              match satCellMaps T c.id c.label a.toNat b.toNat d.toNat with
-              | .ok (sm, cm) => .ok { s1' with satmap := some sm, cellmap := some cm }
-              | .error e => .error e
-            | _, _, _ => .error .badType
-          | _, _, _ => .error .noAttr
-        | _, _ => .error .noAttr
-      else .ok s1
-    match s2E with
-    | .error e => .error e
-    | .ok s2 =>
-    -- 4076_201 harmonic coefficient counts
-    if some fid = T.special.idf038 then
-      match idx, T.special.idf037 with
-      | i :: _, some f037 =>
-        match getInt s2 (f037, [i]), getInt s2 (fid, [i]) with
-        | .ok n0, .ok m0 =>
-          let N := n0 + 1
-          let M := m0 + 1
-          let nc := (N + 1) * (N + 2) / 2 - (N - M) * (N - M + 1) / 2
-          let ns := nc - (N + 1)
-          .ok { s2 with attrs := (s2.attrs.set (T.fidNHarmC, []) (.int nc)).set (T.fidNHarmS, []) (.int ns) }
-        | .error e, _ => .error e
-        | _, .error e => .error e
-      | [], _ => .error .badIndex
-      | _, none => .error .noAttr
-    else .ok s2
+      match fieldValue c.p f w idx s with
+      | .error e => .error e
+      | .ok (v, bits) =>
+        match fieldStore f fid idx s.attrs v with
+        | .error e => .error e
+        | .ok attrs =>
+          fieldSpecial c.T c.id c.label f fid idx w bits { s with off := s.off + w, attrs := attrs }
 
 /-- run `f 1, f 2, …, f n` threading the state (the `for i in range(gsiz)` loop) -/
 def repLoop (f : Nat → DState → Except DecErr DState) : Nat → Nat → DState → Except DecErr DState
@@ -267,6 +275,14 @@ def countOf (c : Ctx) (cnt : Count) (idx : List Nat) (s : DState) : Except DecEr
       let g := if nest = 0 ∧ some fid = c.T.special.idf035 then i + 1 else i
       .ok g.toNat
 
+/-- `getattr(self, anam) == con` of `_set_attribute_optional` -/
+def optMatches (a : Val) (v : Int) : Bool :=
+  match a with
+  | .int i => i = v
+  | .scaled raw (.int k) => raw * k = v
+  | .scaled raw (.flt num den) => raw * num = v * den
+  | _ => false
+
 mutual
 /-- `_set_attribute` -/
 def decItem (c : Ctx) : Item → List Nat → DState → Except DecErr DState
@@ -278,13 +294,7 @@ def decItem (c : Ctx) : Item → List Nat → DState → Except DecErr DState
   | .opt fid v body, idx, s =>
     match s.attrs.get? (fid, []) with
     | none => .error .noAttr
-    | some a =>
-      let eq : Bool := match a with
-        | .int i => i = v
-        | .scaled raw (.int k) => raw * k = v
-        | .scaled raw (.flt num den) => raw * num = v * den
-        | _ => false
-      if eq then decItems c body idx s else .ok s
+    | some a => if optMatches a v then decItems c body idx s else .ok s
   | .malformed _, _, _ => .error .malformed
 def decItems (c : Ctx) : List Item → List Nat → DState → Except DecErr DState
   | [], _, s => .ok s
